@@ -592,6 +592,7 @@ fn block(ch: char) -> Vec<u8> {
         'E' => enumerate::lcg_bytes(0x10001, 3),
         'F' => enumerate::lcg_bytes(0xffb0, 4),
         'Z' => enumerate::lcg_bytes(0x100_0000, 5),
+        'T' => enumerate::lcg_bytes(0x10_0000, 6),
         _ => vkit::machinery!("unknown block {ch}"),
     }
 }
@@ -626,7 +627,7 @@ fn build_fixture(names: Vec<String>, pairs: &[(String, String)]) -> Fix {
     let dir = scratch::Dir::new("c07fix").keep();
     let repo = dir.join("r.git");
     git::init_bare(&repo);
-    let blocks: HashMap<char, Vec<u8>> = "abEFZ".chars().filter(|c| names.iter().any(|n| n.contains(*c))).map(|c| (c, block(c))).collect();
+    let blocks: HashMap<char, Vec<u8>> = "abEFZT".chars().filter(|c| names.iter().any(|n| n.contains(*c))).map(|c| (c, block(c))).collect();
     let texts: Vec<Vec<u8>> = names.iter().map(|n| n.chars().flat_map(|c| blocks[&c].iter().copied()).collect()).collect();
     let blob = hash_objects_batch(&repo, &dir, "blob", &texts);
     for (i, t) in texts.iter().enumerate() {
@@ -684,10 +685,15 @@ fn delta_data(pack: &data::File, entry: &data::Entry) -> Result<Vec<u8>, String>
     }
 }
 
+static GIT_OFS4: AtomicU64 = AtomicU64::new(0);
 fn note_shape(s: &DeltaShape) {
     DELTAS_SEEN.fetch_add(1, Ordering::Relaxed);
     if s.size_masks.contains(&0) {
         COPY_64K.fetch_add(1, Ordering::Relaxed);
+    }
+    if s.ofs_masks.iter().any(|m| m & 0b1000 != 0) {
+        // a git-made delta that copies from a base offset >= 2^24 (fourth offset byte present)
+        GIT_OFS4.fetch_add(1, Ordering::Relaxed);
     }
 }
 
@@ -886,13 +892,177 @@ fn text_names(alpha: &[char], max_len: usize) -> Vec<String> {
     v
 }
 
+
+// ---------------------------------------------------------------------------------------------------------------
+// Hand-assembled deltas: every copy-offset byte count 1..4 and every copy-size byte count 0..3 at its boundary, against a base
+// of 16 MiB + 256 KiB. All deltas live in ONE pack that `git index-pack` resolves; git's result is the oracle.
+const HM_BASE_LEN: usize = 0x100_0000 + 0x4_0000;
+const HM_OFFSETS: [u32; 13] =
+    [0, 1, 0xff, 0x100, 0x101, 0xffff, 0x1_0000, 0x1_0001, 0xff_ffff, 0x100_0000, 0x100_0001, 0x100_0100, 0x101_0101];
+const HM_SIZES: [u32; 9] = [1, 0xff, 0x100, 0x101, 0xffff, 0x1_0000, 0x1_0001, 0x2_0000, 0x2_01ff];
+
+#[derive(Serialize, Deserialize, Hash, Clone, Debug, PartialEq, Eq)]
+struct HandCase {
+    ofs: u32,
+    size: u32,
+    /// also emit the zero bytes of offset and size (non-minimal but valid encoding; size 0x10000 then has explicit bytes)
+    explicit: bool,
+    ofs_delta: bool,
+}
+
+fn encode_copy(ofs: u32, size: u32, explicit: bool) -> Vec<u8> {
+    let mut cmd = 0x80u8;
+    let mut args = Vec::new();
+    for i in 0..4 {
+        let b = (ofs >> (8 * i)) as u8;
+        if b != 0 || explicit {
+            cmd |= 1 << i;
+            args.push(b);
+        }
+    }
+    if !(size == 0x1_0000 && !explicit) {
+        for i in 0..3 {
+            let b = (size >> (8 * i)) as u8;
+            if b != 0 || explicit {
+                cmd |= 0x10 << i;
+                args.push(b);
+            }
+        }
+    }
+    let mut v = vec![cmd];
+    v.extend(args);
+    v
+}
+
+struct HandFix {
+    pack: data::File,
+    base_off: u64,
+    /// per case: (entry offset, result as git reads it, delta has a fourth offset byte)
+    entries: HashMap<HandCase, (u64, Vec<u8>, bool)>,
+}
+static HAND_OFS4: AtomicU64 = AtomicU64::new(0);
+static HAND_SIZE_MASKS: AtomicU64 = AtomicU64::new(0);
+
+fn hand_cases(quick: bool) -> Vec<HandCase> {
+    let mut v = Vec::new();
+    for &ofs in &HM_OFFSETS {
+        for &size in &HM_SIZES {
+            for explicit in [false, true] {
+                for ofs_delta in [false, true] {
+                    // quick: minimal encodings as ref-delta, explicit ones as ofs-delta; against the 16 MiB base only 3 sizes
+                    if quick && (explicit != ofs_delta || (ofs >= 0xff_ffff && ![1, 0x1_0000, 0x1_0001].contains(&size))) {
+                        continue;
+                    }
+                    v.push(HandCase { ofs, size, explicit, ofs_delta });
+                }
+            }
+        }
+    }
+    v
+}
+
+fn is_big(c: &HandCase) -> bool {
+    c.ofs >= 0xff_ffff
+}
+
+/// one pack per base: `big` = 16.25 MiB base for offsets around 2^24, otherwise a 256 KiB base
+fn build_hand_fixture(cases: &[HandCase], big: bool) -> HandFix {
+    let cases: Vec<HandCase> = cases.iter().filter(|c| is_big(c) == big).cloned().collect();
+    let cases = &cases[..];
+    let base = enumerate::lcg_bytes(if big { HM_BASE_LEN } else { 0x4_0000 }, 9);
+    let base_id = gix_object::compute_hash(SHA1, Kind::Blob, &base);
+    let mut entries = vec![blob_entry(&base)];
+    let mut offset = 12 + (entries[0].header.len() + entries[0].body.len()) as u64;
+    let mut meta: Vec<(HandCase, u64, Vec<u8>, bool)> = Vec::new();
+    for (n, c) in cases.iter().enumerate() {
+        let tag = format!("#{n};").into_bytes();
+        let mut result = base[c.ofs as usize..(c.ofs + c.size) as usize].to_vec();
+        result.extend_from_slice(&tag);
+        let mut delta = delta_size_varint(base.len() as u64);
+        delta.extend(delta_size_varint(result.len() as u64));
+        delta.extend(encode_copy(c.ofs, c.size, c.explicit));
+        delta.push(tag.len() as u8);
+        delta.extend_from_slice(&tag);
+        // harness sanity: the reference interpreter reproduces the intended result
+        let shape = match ref_apply_delta(&base, &delta) {
+            Ok((r, shape)) if r == result => shape,
+            other => vkit::machinery!("hand-made delta for {c:?} is wrong: {:?}", other.map(|o| o.0.len())),
+        };
+        let h = if c.ofs_delta { Header::OfsDelta { base_distance: offset - 12 } } else { Header::RefDelta { base_id } };
+        let e = RawEntry { header: gix_header_bytes(h, delta.len() as u64), body: zlib_stored(&delta) };
+        meta.push((c.clone(), offset, result, shape.ofs_masks.iter().any(|m| m & 0b1000 != 0)));
+        offset += (e.header.len() + e.body.len()) as u64;
+        entries.push(e);
+    }
+    let (pack, offs) = build_pack(&entries);
+    for (i, m) in meta.iter().enumerate() {
+        if offs[i + 1] != m.1 {
+            vkit::machinery!("offset bookkeeping wrong for hand-made delta {i}");
+        }
+    }
+    let dir = scratch::Dir::new("c07hand").keep();
+    let repo = dir.join("r.git");
+    for d in ["objects/pack", "refs/heads"] {
+        std::fs::create_dir_all(repo.join(d)).unwrap_or_else(|e| vkit::machinery!("mkdir: {e}"));
+    }
+    write_file(&repo.join("HEAD"), b"ref: refs/heads/main\n");
+    let name = sha1(&pack[..pack.len() - 20]).to_string();
+    let pack_path = repo.join(format!("objects/pack/pack-{name}.pack"));
+    write_file(&pack_path, &pack);
+    // git is the oracle: it must accept the pack and read every delta result as intended by the harness's encoder
+    git::git(&repo, &["index-pack".as_ref(), pack_path.as_os_str()]);
+    let ids: Vec<String> = meta.iter().map(|m| gix_object::compute_hash(SHA1, Kind::Blob, &m.2).to_string()).collect();
+    let stdin: String = ids.iter().map(|i| format!("{i}\n")).collect();
+    let out = git::git_in(&repo, &["cat-file", "--batch"], stdin.as_bytes());
+    let parsed = parse_cat_file_batch(&out);
+    if parsed.len() != meta.len() {
+        vkit::machinery!("cat-file answered {} of {} hand-made deltas", parsed.len(), meta.len());
+    }
+    let mut map = HashMap::new();
+    for ((c, off, result, ofs4), got) in meta.into_iter().zip(parsed) {
+        match got {
+            Some((t, d)) if t == "blob" && d == result => {
+                map.insert(c, (off, d, ofs4));
+            }
+            other => vkit::machinery!("git reads the hand-made delta {c:?} differently than the harness intends: {:?}", other.map(|o| (o.0, o.1.len()))),
+        }
+    }
+    let pack = open_pack(&pack_path).unwrap_or_else(|e| vkit::machinery!("gitoxide cannot open the hand-made pack: {e}"));
+    HandFix { pack, base_off: 12, entries: map }
+}
+
+fn eval_hand(fix: &HandFix, c: &HandCase) -> Verdict {
+    let Some((off, want, ofs4)) = fix.entries.get(c) else { vkit::machinery!("case {c:?} is not in the hand-made pack") };
+    let resolve = |_id: &gix_hash::oid, _out: &mut Vec<u8>| fix.pack.entry(fix.base_off).ok().map(data::decode::entry::ResolvedBase::InPack);
+    let (entry, kind, data, outcome) = gix_decode(&fix.pack, *off, &resolve)?;
+    if c.ofs_delta != matches!(entry.header, Header::OfsDelta { .. }) {
+        return bad("hand-header", format!("{:?}", entry.header));
+    }
+    if kind != Kind::Blob || &data != want {
+        let at = data.iter().zip(want.iter()).position(|(a, b)| a != b);
+        return bad(
+            "delta-result",
+            format!("copy(ofs={:#x}, size={:#x}, explicit={}) + insert decodes to {} bytes (first difference at {at:?}), git reads {} bytes", c.ofs, c.size, c.explicit, data.len(), want.len()),
+        );
+    }
+    if outcome.object_size != want.len() as u64 || outcome.num_deltas != 1 {
+        return bad("outcome", format!("{outcome:?}"));
+    }
+    if *ofs4 {
+        HAND_OFS4.fetch_add(1, Ordering::Relaxed);
+    }
+    let enc = encode_copy(c.ofs, c.size, c.explicit);
+    HAND_SIZE_MASKS.fetch_or(1 << ((enc[0] >> 4) & 7), Ordering::Relaxed);
+    ok(format!("hand:{}:ofs-bytes-mask={:x}:size-bytes-mask={:x}", if c.ofs_delta { "ofs" } else { "ref" }, enc[0] & 0xf, (enc[0] >> 4) & 7))
+}
+
 pub fn run(run: &'static Run) {
     run.rule(
         "header: 6 header kinds x sizes {0,1,2^k(+-1) for every k incl. every 7-bit group boundary 2^(4+7j), 10^k(+-1), single-group patterns, MAX} \
          x ofs distances {same boundaries, B_j=sum 128^i (+-2,+-1,+127,+128) for every encoded width 1..10, MAX} / 4 base ids, x 5 trailing-byte variants x 3 pack offsets; \
          decode-agreement: all byte strings = 32 first bytes (type 0..7 x low nibble {0,f} x continuation) followed by <=5 (quick) / <=7 (thorough) bytes over {00,01,7f,80,ff}; \
          git-reads-ours: packs assembled from gitoxide-written headers + stored zlib bodies, object sizes up to 2^18+1 (quick) / 2^25+1 (thorough) and ofs distances at the 1|2, 2|3, 3|4 (thorough: 4|5) byte boundaries; \
-         git-delta-*: texts = block sequences over a=16B,b=64B,E=0x10001B,F=0xffb0B: quick length<=3 over {b,E} + length<=2 over {a,b,E,F} (28 texts); thorough length<=3 over {a,b,E} + length<=2 over {a,b,E,F} (47 texts) and a 16MiB block for 4-byte copy offsets, all ordered pairs (thin, ref-delta forced by git) and all unordered pairs x {ofs,ref} (thorough; quick: ofs only, texts of <=2 blocks); \
+         git-delta-*: texts = block sequences over a=16B,b=64B,E=0x10001B,F=0xffb0B: quick length<=3 over {b,E} + length<=2 over {a,b,E,F} (28 texts); thorough length<=3 over {a,b,E} + length<=2 over {a,b,E,F} (47 texts) plus pairs whose base has 16 MiB of filler in front of a shared 1 MiB block (git copies from offsets >= 2^24); handmade-delta: two packs of hand-encoded copy+insert deltas (256 KiB base; 16.25 MiB base for offsets >= ffffff, quick: sizes 1,10000,10001 there), copy offsets {0,1,ff,100,101,ffff,10000,10001,ffffff,1000000,1000001,1000100,1010101} x sizes {1,ff,100,101,ffff,10000,10001,20000,201ff} x {minimal, explicit-zero-bytes} encoding x {ref,ofs} (quick: minimal+ref, explicit+ofs), oracle = git index-pack + cat-file, all ordered pairs (thin, ref-delta forced by git) and all unordered pairs x {ofs,ref} (thorough; quick: ofs only, texts of <=2 blocks); \
          non-trivial = header round-tripped through both decoders / git produced a delta and gitoxide reproduced the target",
     );
     run.assume("git 2.39.5 (index-pack, cat-file, pack-objects) as oracle for pack contents; hand-written stored-zlib streams and pack assembly are trusted harness code (git index-pack validates them)");
@@ -1003,6 +1173,24 @@ pub fn run(run: &'static Run) {
     );
     lap("git-reads-ours");
 
+    // ---- hand-assembled deltas with every offset/size byte count ----
+    let hcases = hand_cases(run.quick());
+    let hfix_small = build_hand_fixture(&hcases, false);
+    let hfix_big = build_hand_fixture(&hcases, true);
+    let (hfix_small, hfix_big) = (&hfix_small, &hfix_big);
+    lap("handmade-fixture");
+    run.sub_with(
+        "handmade-delta",
+        vkit::Opts::default().chunk(64),
+        |emit| {
+            // the copies from offsets >= 2^24 first
+            hcases.iter().filter(|c| is_big(c)).cloned().for_each(&mut *emit);
+            hcases.iter().filter(|c| !is_big(c)).cloned().for_each(&mut *emit);
+        },
+        |c| eval_hand(if is_big(c) { hfix_big } else { hfix_small }, c),
+    );
+    lap("handmade-delta");
+
     // ---- deltas made by git ----
     // quick: <=3 blocks over {b,E} plus <=2 blocks over {a,b,E,F} (28 texts); thorough: <=3 blocks over {a,b,E} plus <=2 blocks over {a,b,E,F} (47 texts)
     let mut names = if run.quick() { text_names(&['b', 'E'], 3) } else { text_names(&['a', 'b', 'E'], 3) };
@@ -1011,11 +1199,11 @@ pub fn run(run: &'static Run) {
             names.push(n);
         }
     }
-    let specials: Vec<(String, String)> = if run.quick() {
-        vec![]
-    } else {
-        [("ZEb", "Eb"), ("ZbE", "bE"), ("ZaEb", "Eb"), ("Eb", "ZEb")].iter().map(|(a, b)| (a.to_string(), b.to_string())).collect()
-    };
+    // Copies from base offsets >= 2^24: Z = 16 MiB of filler in front of the shared 1 MiB block T. The target must be larger than
+    // 1/32 of the base or git does not even try a delta (that is why the earlier 64 KiB targets were stored whole).
+    let special_list: &[(&str, &str)] =
+        if run.quick() { &[("ZT", "Tb")] } else { &[("ZT", "Tb"), ("ZbT", "bT"), ("ZTE", "TE"), ("ZaT", "TEb"), ("ZET", "bTa")] };
+    let specials: Vec<(String, String)> = special_list.iter().map(|(a, b)| (a.to_string(), b.to_string())).collect();
     let regular = names.clone();
     for (a, b) in &specials {
         for n in [a, b] {
@@ -1025,7 +1213,7 @@ pub fn run(run: &'static Run) {
         }
     }
     run.cov("delta_texts", regular.len());
-    let mut pairs: Vec<(String, String)> = Vec::new();
+    let mut pairs: Vec<(String, String)> = specials.clone();
     for t in &regular {
         for b in &regular {
             if b != t {
@@ -1033,7 +1221,6 @@ pub fn run(run: &'static Run) {
             }
         }
     }
-    pairs.extend(specials.iter().cloned());
     let fix = build_fixture(names, &pairs);
     let fix = &fix;
     lap("fixture");
@@ -1081,10 +1268,19 @@ pub fn run(run: &'static Run) {
     );
     run.cov("deltas_applied_and_cross_checked", DELTAS_SEEN.load(Ordering::Relaxed));
     run.cov("deltas_with_64k_copy", COPY_64K.load(Ordering::Relaxed));
+    run.cov("git_made_deltas_with_fourth_offset_byte", GIT_OFS4.load(Ordering::Relaxed));
+    run.cov("handmade_deltas_with_fourth_offset_byte", HAND_OFS4.load(Ordering::Relaxed));
+    run.cov("handmade_copy_size_byte_masks_seen_bitset", HAND_SIZE_MASKS.load(Ordering::Relaxed));
+    run.require("hand-made deltas copying from offsets >= 2^24 were decoded", HAND_OFS4.load(Ordering::Relaxed) > 0);
+    run.require("hand-made copies with 0 (implicit 0x10000), 1, 2 and 3 size bytes were decoded", {
+        let m = HAND_SIZE_MASKS.load(Ordering::Relaxed);
+        [0u64, 1, 3, 7, 4, 2].iter().all(|b| m & (1 << b) != 0)
+    });
     run.cov("packs_with_chain_ge_2", CHAIN_GE2.load(Ordering::Relaxed));
     if !run.over_budget() {
         run.require("git produced deltas that were applied", DELTAS_SEEN.load(Ordering::Relaxed) > 100);
         run.require("a copy command with implicit size 0x10000 was applied", COPY_64K.load(Ordering::Relaxed) > 0);
         run.require("a delta chain of length >= 2 was resolved", CHAIN_GE2.load(Ordering::Relaxed) > 0);
+        run.require("a git-made delta copying from a base offset >= 2^24 (fourth offset byte) was applied", GIT_OFS4.load(Ordering::Relaxed) > 0);
     }
 }
